@@ -38,6 +38,17 @@ fn lite(props: Props, rule: &'static str, detail: String, op: Option<Op>, extra_
 /// Oracle for a cache right after a fault (panic or leaked iterator): walker
 /// before anything else, recorded sum, then observation with liveness checks,
 /// mirror traversal, lookups. Returns Ok((snapshot)) if the cache is coherent.
+/// Marks the key of a post-fault state whose hook-visible part equals the
+/// pre-state while the cache object's bytes changed.
+pub const HIDDEN_MAGIC: &[u8] = b"\xEE<hidden-state>\xEE";
+
+/// The bytes of the cache object itself (not of what it points to).
+pub fn raw_bytes(c: &Cache) -> Vec<u8> {
+    let n = std::mem::size_of::<Cache>();
+    let p = c as *const Cache as *const u8;
+    (0..n).map(|i| unsafe { std::ptr::read_volatile(p.add(i)) }).collect()
+}
+
 pub fn post_fault_oracle(u: &Universe, cfg: &Config, ex: &mut Exec, fp: Props, viol: &mut Vec<(Props, &'static str, String)>) -> Option<Snap> {
     let dump = ex.cr().verif_dump();
     let w = match walk(&dump) {
@@ -134,6 +145,9 @@ pub fn fault_scan(ctx: &Ctx, cfg: &Config, hist: &[Op], alpha: &[Op], st: &mut S
                 let mut ex = rebuild(u, cfg, hist);
                 let pre = observe(ex.cr(), usize::MAX);
                 let _ = take_reg_violations();
+                let pre_fp = dump_fingerprint(&ex.cr().verif_dump());
+                let pre_addr = ex.cr().verif_dump().alloc_addr;
+                let raw_pre = raw_bytes(ex.cr());
                 set_fuel(Some((kind, idx)));
                 let res = catch_unwind(AssertUnwindSafe(|| ex.apply(op)));
                 let fired = fuel().is_none();
@@ -217,7 +231,16 @@ pub fn fault_scan(ctx: &Ctx, cfg: &Config, hist: &[Op], alpha: &[Op], st: &mut S
                         _ => {}
                     }
                     if viol.is_empty() {
-                        out.novel.push((vec![arm, op], snap.key));
+                        let mut key = snap.key;
+                        // Everything the hook knows is as before the operation, and still the
+                        // cache object's own bytes differ: the fault left state behind that the
+                        // canonical key cannot see. Such a state is explored in its own right.
+                        let raw_post = raw_bytes(ex.cr());
+                        if raw_post != raw_pre && pre_fp == dump_fingerprint(&snap.dump) && pre_addr == snap.dump.alloc_addr {
+                            key.extend_from_slice(HIDDEN_MAGIC);
+                            key.extend(raw_pre.iter().zip(raw_post.iter()).enumerate().filter(|(_, (a, b))| a != b).map(|(i, _)| i as u8));
+                        }
+                        out.novel.push((vec![arm, op], key));
                     }
                     // end of life: drop what we hold, then the cache
                     ex.release();
